@@ -877,6 +877,82 @@ func genCodecSrc(repo string) (string, error) {
 		sw["ctx_reset_puts_once"] = once
 	}
 
+	// lock discipline of the process-wide dubbo service metadata (Find / Contains are on the decode path of ingress_dubbo /
+	// egress_dubbo listeners, with peer-supplied path and version): every exit after the acquire releases what was acquired -
+	// a deferred unlock, or the matching unlock as the statement right in front of every return (and as the last statement of
+	// a function without results)
+	{
+		fset, f, err := ParseGoFile(repo, "pkg/protocol/xprotocol/dubbo/metadata.go")
+		if err != nil {
+			return "", err
+		}
+		all := true
+		for _, fn := range []string{"Find", "Contains", "Register", "Clear"} {
+			fd := FindFunc(f, "Metadata", fn)
+			if fd == nil {
+				unknown("dubbo metadata.go", "no method "+fn)
+				all = false
+				continue
+			}
+			var acq token.Pos
+			unlock, deferred, acquires := "", false, 0
+			ast.Inspect(fd.Body, func(nd ast.Node) bool {
+				switch x := nd.(type) {
+				case *ast.DeferStmt:
+					if c := src(fset, x.Call); c == "m.mu.RLocker().Unlock()" || c == "m.mu.RUnlock()" || c == "m.mu.Unlock()" {
+						deferred = true
+					}
+				case *ast.ExprStmt:
+					switch src(fset, x.X) {
+					case "m.mu.RLocker().Lock()", "m.mu.RLock()":
+						acq, unlock = x.Pos(), "m.mu.RLocker().Unlock()"
+						acquires++
+					case "m.mu.Lock()":
+						acq, unlock = x.Pos(), "m.mu.Unlock()"
+						acquires++
+					}
+				}
+				return true
+			})
+			if acquires != 1 {
+				unknown("dubbo metadata.go "+fn, fmt.Sprintf("%d lock acquisitions", acquires))
+				all = false
+				continue
+			}
+			if deferred {
+				continue
+			}
+			isUnlock := func(st ast.Stmt) bool {
+				es, isE := st.(*ast.ExprStmt)
+				if !isE {
+					return false
+				}
+				c := src(fset, es.X)
+				return c == unlock || (unlock == "m.mu.RLocker().Unlock()" && c == "m.mu.RUnlock()")
+			}
+			ast.Inspect(fd.Body, func(nd ast.Node) bool {
+				blk, isBlk := nd.(*ast.BlockStmt)
+				if !isBlk {
+					return true
+				}
+				for i, st := range blk.List {
+					if _, isRet := st.(*ast.ReturnStmt); isRet && st.Pos() > acq {
+						if i == 0 || !isUnlock(blk.List[i-1]) {
+							all = false
+						}
+					}
+				}
+				return true
+			})
+			if fd.Type.Results == nil {
+				if n := len(fd.Body.List); n == 0 || !isUnlock(fd.Body.List[n-1]) {
+					all = false
+				}
+			}
+		}
+		sw["dubbo_meta_unlock_every_exit"] = all
+	}
+
 	names := make([]string, 0, len(sw))
 	for k := range sw {
 		names = append(names, k)
